@@ -53,6 +53,8 @@ def compile_many(jobs):
     def run(j):
         cmd, log = j
         r = sh(cmd)
+        if r.returncode != 0:      # one retry: a compiler killed by a transient condition (memory pressure from a concurrent job) is not a property of the tree
+            time.sleep(5); r = sh(cmd)
         if r.returncode != 0:
             with open(log, 'w') as f: f.write(' '.join(cmd) + '\n' + r.stdout + r.stderr)
             return log
@@ -74,6 +76,7 @@ def build_single(name, main_src, extra_srcs, flags, compiler='g++'):
     tmp = d + '.tmp%d' % os.getpid()
     shutil.rmtree(tmp, ignore_errors=True); os.makedirs(tmp)
     r = sh([compiler] + flags + [main_src, '-o', os.path.join(tmp, name)])
+    if r.returncode != 0: time.sleep(5); r = sh([compiler] + flags + [main_src, '-o', os.path.join(tmp, name)])   # one retry, see compile_many
     if r.returncode != 0:
         shutil.rmtree(tmp, ignore_errors=True)
         return ('COMPILE-FAIL', (r.stdout + r.stderr)[-3000:])
